@@ -3,7 +3,7 @@
     Model: Model/Loop.v.  [passes c o]: the slowest sample of round [o], in
     whole multiples of the precision, exceeds 100; [first_pass c l]: index of
     the first such round of [l]; [pow2 j] = 2^j. *)
-From DivanV Require Import Base.Res Generated.Consts Model.Timestamp Model.Loop Proofs.Loop Proofs.LoopProps Proofs.LoopTotal Proofs.LoopSb Proofs.LoopExamples.
+From DivanV Require Import Base.Res Generated.Consts Model.Timestamp Model.Loop Proofs.Loop Proofs.LoopProps Proofs.LoopTotal Proofs.LoopSb Proofs.LoopExamples Proofs.LoopMeaning.
 Local Open Scope N_scope.
 
 (** Obligations on the generated constants: threshold `<= 100`, doubling. *)
@@ -117,3 +117,29 @@ Theorem C19_threshold_round_counts_example :
   (forall j, (j < 2 + 3)%nat -> elapsed_after ex_tune_cfg 0 ex_tune_hist j < c_max ex_tune_cfg) /\
   c_min ex_tune_cfg <= elapsed_after ex_tune_cfg 0 ex_tune_hist (2 + 3).
 Proof. exact threshold_round_counts_example. Qed.
+
+(** What the boolean specification [c19_sb] means ([hist] = the rounds that
+    were run, [o] = what was seen of the run). *)
+Theorem C19_sb_meaning : forall c init hist o,
+  c19_sb c init hist o = true <->
+  (let k := length hist in
+  zero_case c = false -> tuned c = true ->
+  (* sizes 1, 2, 4, ... up to the first passing round, then constant *)
+  o_sizes o = sizes_of c hist k /\
+  (* the recorded samples are those of the kept rounds, at the final size *)
+  N.of_nat (length (o_samples o)) = total_len (kept_of c hist) /\
+  o_samples o = expected_samples c (o_final_size o) (kept_of c hist) /\
+  o_final_size o = match k with O => 0 | S k' => size_of_round c hist k' end /\
+  (* every input-based counter kind: the per-iteration values of the kept samples; nothing otherwise *)
+  (forall kd, qget kd (o_counts o) =
+              if qget kd (c_input_counts c) then expected_counts kd (o_final_size o) (kept_of c hist) else []) /\
+  (* allocation info for exactly the kept samples that allocated *)
+  o_alloc_keys o = alloc_keys_from 0 (concat (kept_of c hist)) /\
+  (* the rounds follow the rule (the first passing round counts, max_time covers tuning) *)
+  (forall j, (j < k)%nat -> continue_after c init hist j = true) /\
+  continue_after c init hist k = negb (o_done o) /\
+  (* the figures *)
+  o_stat_samples o = N.of_nat (length (o_samples o)) /\
+  o_stat_iters o = N.of_nat (length (o_samples o)) * o_final_size o).
+Proof. exact c19_sb_meaning. Qed.
+Print Assumptions C19_sb_meaning.
